@@ -7,7 +7,7 @@ from ..procsim import K
 
 ID = 'C16'
 LEVEL = 'exploration'
-CASE_TIMEOUT = 90.0
+CASE_TIMEOUT = 150.0
 CHUNK = 4
 RULE = ('cases = seeded (workload family+sizes+dtype, worker count, granularity sync|line, scheduling strategy+decision tape, fault plan); '
         'each executed once under the baton scheduler over real forked processes; distinct = SHA-1 of the recorded event log '
@@ -100,7 +100,7 @@ def gen_case(rng, index, tier):
                 sched=gen_sched(rng), faults=[], cfg=dict(cache=rng.random() < 0.7, twice=rng.random() < 0.3, after=rng.random() < 0.4, foreign_child=rng.random() < 0.15))
     if rng.random() < (0.10 if tier == 'thorough' else 0.04) and kind in ('expr', 'locate'):
         # kill-point sweep on a small instance
-        case.update(sweep=True, gran='sync', nprocs=rng.choice([2, 2, 3]), faults=[], budget_s=60 if tier == 'thorough' else 15)
+        case.update(sweep=True, gran='sync', nprocs=rng.choice([2, 2, 3]), faults=[], budget_s=30 if tier == 'thorough' else 15)
         case['cfg']['twice'] = False
         for key in ('n', 'npts'):
             if key in prog:
